@@ -234,13 +234,18 @@ CLAIMED["C11"] = dict(
     text="Lean 4 theorems over a model of PlaceholderMaker that makes Python's reference semantics explicit (detached elements "
     "live in a heap the table entries point into): for every history of do_tree calls on one maker, any documents and tag "
     "choices, the table is one-to-one in both directions, entries are never changed or removed - so an element identical in two "
-    "documents gets the same placeholder whatever was processed in between - and a newly allocated placeholder is fresh. "
-    "PARTIAL: the round trip undo_tree(do_tree(t)) = t is not proved; it is decided on every run by the oracle on the real maker "
-    "and by unit U7, which compares the trees after do_tree, the placeholder table with its keys, and the trees after undo_tree "
+    "documents gets the same placeholder whatever was processed in between - and a newly allocated placeholder is fresh. The "
+    "round trip of one text element is proved (C11_roundtrip_element, C11_roundtrip_element_fresh_maker): undo_element applied "
+    "to what do_element made of an element, in the state do_element left, returns the element up to a normal form (copies of "
+    "inline elements, empty = missing text / tail), for any nesting of formatting and single elements, on the fresh maker and "
+    "on every state satisfying the table / heap invariants - by a relation between the children and the alternating placeholder "
+    "text that do_element provably establishes and from which the restoring loop provably rebuilds the children. "
+    "PARTIAL: the round trip of a whole document through do_tree / undo_tree (several text elements, text tags nested in text "
+    "tags) is decided on every run by the oracle on the real maker and by unit U7, which compares the trees after do_tree, the placeholder table with its keys, and the trees after undo_tree "
     "between model and code (one or two documents per maker, random tag subsets).",
     note="Trusted: Lean kernel and standard axioms; model validated by U7; lxml serialisation (tounicode) is modelled as the "
     "id-erased subtree value; documents without private-use characters, < 6400 placeholders.",
-    technique="Lean 4 proof (invariant by induction over get_placeholder / do_tree histories) + model/code correspondence + round-trip oracle",
+    technique="Lean 4 proof (table invariant over get_placeholder / do_tree histories; round trip of a text element by a do-side / undo-side relation over placeholder texts) + model/code correspondence + round-trip oracle",
     design="DESIGN.md section 6, C11",
 )
 
